@@ -283,9 +283,13 @@ class Scheduler(object):
     if len(alts) == 1:
       idx = 0
     else:
-      kinds = [a[0] for a in alts]
       if self.preempt_filter is not None and cur_enabled and not self.preempt_filter(me, label):
-        idx = 0    # not a preemption point for this harness: no decision recorded
+        # not a preemption point for this harness: the running thread may not be preempted by another *thread* here;
+        # external events (gates, signals) and timers remain possible
+        alts = [alts[0]] + [a for a in alts[1:] if a[0] != 'run']
+      kinds = [a[0] for a in alts]
+      if len(alts) == 1:
+        idx = 0
       else:
         try:
           idx = self.chooser(len(alts), {'cur_enabled': cur_enabled, 'kinds': kinds, 'label': label,
